@@ -8,7 +8,8 @@ RULE = ("random acyclic dependency graphs of 1-8 named types (records, enums, fi
         "values and union branches, diamonds, repeated use and use at two depths, qualified and namespace-relative "
         "spellings, dotted names or namespace attributes, occasional locally nested enum/fixed definitions, defaults on "
         "primitive and enum-typed fields; per graph: load_schema(top), load_schema_ordered (every dependencies-first order "
-        "for <= 5 types, else 3 random ones), every single file removed; non-trivial = graph with at least 2 types")
+        "for <= 5 types, else 3 random ones), sequences of loads of different top-level types (and the same one twice) "
+        "through ONE FlatDictRepository object and through the path form, every single file removed; non-trivial = graph with at least 2 types")
 TRUSTED = ["harness/props/c19.py inline_first_use: the harness's own inlining of the files at first use (cross-checked against "
            "the model's inline_first_use: same canonical form, and valid_raw holds of the model's)",
            "harness/gen.py DataGen: conforming data for the encoding comparison",
@@ -284,6 +285,36 @@ def run_graph(ctx, g, d, data_rng):
             except Exception:
                 pass
         obs["ordered"].append((order, r, encs))
+    # several loads through ONE repository object (and through the path form), of different top-level types of the
+    # same graph, in several orders, and of the same top twice: each result against its own inlined schema
+    from fastavro.repository import FlatDictRepository
+    obs["sequence"] = []
+    write_files(d, files)
+    records = [n for n, raw in files.items() if raw.get("type") == "record"]
+    seqs = [records[::-1] + [top], [top] + records[::-1], [top, top]]
+    if len(records) > 2:
+        sh = list(records); data_rng.shuffle(sh); seqs.append(sh + [top])
+    for seq in seqs:
+        for form in ("repo", "path"):
+            repo = FlatDictRepository(d)
+            for k, name in enumerate(seq):
+                if form == "repo":
+                    stq, lq = classify(lambda: load_schema(name, repo=repo))
+                else:
+                    stq, lq = classify(lambda: load_schema(os.path.join(d, name + ".avsc")))
+                r = canon_of(lq) if stq == "ok" else stq
+                inl = inline_first_use(files, name)
+                nm = {}
+                sti, pi = classify(lambda: parse_schema(copy.deepcopy(inl), nm))
+                expect = canon_of(pi) if sti == "ok" else sti
+                enc = None
+                if stq == "ok" and sti == "ok":
+                    try:
+                        datum = gen.DataGen(data_rng, dict(nm), hints=False).datum(pi)
+                        enc = (repr(datum)[:200], encode(lq, datum), encode(pi, datum))
+                    except Exception:
+                        enc = None
+                obs["sequence"].append((form, list(seq), k, name, r, expect, enc))
     # every single file removed
     obs["missing"] = []
     for name in files:
@@ -358,6 +389,14 @@ def run(ctx):
                     if e1 != e2:
                         ctx.violation("pred:ordered-equals-inlined", case(g, order=order, datum=datum), impl=e1, model=e2,
                                       signature="C19:load_schema_ordered:encoding-differs-from-inlined")
+            for form, seq, k, name, r, expect, enc in obs["sequence"]:
+                ctx.count("pred:repeated-loads", (key, form, tuple(seq), k), nontrivial=nt)
+                if r != expect or (enc is not None and enc[1] != enc[2]):
+                    ctx.violation("pred:repeated-loads", case(g, form=form, sequence=seq, index=k, loaded=name), impl=r if r != expect else enc[1],
+                                  model=expect if r != expect else enc[2],
+                                  signature="C19:load_schema:repeated-loads-through-one-%s:%s" % (
+                                      "repository" if form == "repo" else "directory",
+                                      "differs-from-inlined" if r.startswith("ok:") else "fails:" + strip_other(r).split(":")[0]))
             for name, r in obs["missing"]:
                 ctx.count("pred:missing-file", (key, name), nontrivial=nt)
                 expect = "repo-error" if name == g["top"] else "unknown:" + name
@@ -404,6 +443,10 @@ def replay(ctx, rep):
     for order, r, encs in obs["ordered"]:
         print("ordered", order, r)
         ok = ok and r == obs["inlined"]
+    for form, seq, k, name, r, expect, enc in obs["sequence"]:
+        if r != expect or (enc is not None and enc[1] != enc[2]):
+            print("sequence", form, seq, "load #%d of %s:" % (k, name), r, "expected", expect)
+            ok = False
     for name, r in obs["missing"]:
         expect = "repo-error" if name == g["top"] else "unknown:" + name
         print("without", name, "->", r, "(expected", expect + ")")
